@@ -512,13 +512,15 @@ fn decl_space(tier: Tier) -> Vec<(String, String, String, bool, Vis)> {
                 let set = subset_of(mask);
                 let names: Vec<&str> = set.iter().map(|t| t.name()).collect();
                 let nu = k % 2 == 0;
-                let vis = [Vis::Pub, Vis::Private, Vis::PubCrate, Vis::PubSuper][k % 4];
-                let item = item.replacen("pub ", vis.src(), 1);
-                // with and without a `default = ..` attribute (a derive the macro would hand through to
-                // `#[derive]` untouched is only visible when it is NOT refused for another reason)
-                for da in [default_attr(fam), ""] {
-                    let attr = format!("{ga} {da} derive({}){}", names.join(", "), if nu { ", new_unchecked" } else { "" });
-                    out.push((attr, item.clone(), "X".into(), nu, vis));
+                // every declared visibility for every derive set (each generated re-export must carry exactly it)
+                for vis in [Vis::Pub, Vis::Private, Vis::PubCrate, Vis::PubSuper] {
+                    let item = item.replacen("pub ", vis.src(), 1);
+                    // with and without a `default = ..` attribute (a derive the macro would hand through to
+                    // `#[derive]` untouched is only visible when it is NOT refused for another reason)
+                    for da in [default_attr(fam), ""] {
+                        let attr = format!("{ga} {da} derive({}){}", names.join(", "), if nu { ", new_unchecked" } else { "" });
+                        out.push((attr, item.clone(), "X".into(), nu, vis));
+                    }
                 }
             }
         }
